@@ -253,6 +253,20 @@ class Heap:
             return arr
         return v
 
+    def twin_copy_like(self, name, layout_of=None):
+        """The values of `name` in the memory layout of entry `layout_of` (a private copy):
+        what the caller would have if it had copied its data into a buffer of that layout."""
+        if layout_of is None or layout_of not in self.entries or layout_of == name:
+            return self.twin_copy(name)
+        e = self.entries[name]
+        st = self.entries[layout_of]["storage"]
+        saved = e["storage"]
+        try:
+            e["storage"] = st
+            return self.twin_copy(name)
+        finally:
+            e["storage"] = saved
+
     def check(self):
         """Return the names of entries whose bytes (or canaries) changed."""
         bad = []
